@@ -15,9 +15,11 @@ Require Import Celma.Common.Res Celma.FixedStr.FsBase Celma.FixedStr.FsModel
   Celma.FixedStr.FsPinned Celma.FixedStr.FsIter.
 Local Open Scope N_scope.
 
-(** Every modifying operation (all 40 modelled entry points: constructors and
+(** Every modifying operation (all 41 modelled entry points: constructors and
     assign, the insert / erase / push_back / pop_back / append / sprintf /
-    replace families including the iterator overloads, swap, clear), for every
+    replace families including the iterator overloads, swap, clear; std::string
+    has no sprintf: formatting is specified as "assign the formatted text", a
+    failing conversion as "assign the empty string"), for every
     capacity, every well-formed pair of objects and every argument inside the
     domain: the operation succeeds and leaves the text std::string has after the
     same operation, cut at the capacity (for swap: both objects). *)
@@ -51,7 +53,7 @@ Theorem C11_observers_refine :
 Proof. intros L s o x cs' cos' rs H Hs Ho HB HC HF Hm. exact (obs_all_refines L H s o x Hs Ho HB HC HF Hm cs' cos' rs). Qed.
 Print Assumptions C11_observers_refine.
 
-(** All 89 operations in one statement. *)
+(** All 90 operations in one statement. *)
 Theorem C11_step_refines :
   forall L s o x cs' cos' rs,
     CapOk L -> Inv L s -> Inv L o -> Bounded x -> CstrsOk x -> FindOk s o x ->
